@@ -117,8 +117,35 @@ TJoined(s) ==
     /\ UNCHANGED <<conf, lm, hm, tptr, wptr, pending, app, hooked, hobj, stale, cur, todo, script, inPipe, ctr, rd, delivered, accepted>>
 
 \* resetOwnThread / moveToOwnThread returned to the caller
+\* The decision "there is no thread (any more) - return" / "there is a thread already - return" is taken under the handler
+\* mutex; the event that shows the return (Op end) is stamped after the mutex was released, so another thread's
+\* move / reset may appear in between and change what the decision was based on.  The decision is therefore a step of
+\* its own: logged with the point that carries the value read (rs.locked, mv.locked), unlogged after the wait loop.
+TLeaveAfterWait(s) ==
+    /\ pc[s] = "rs.check" /\ pending = 0 /\ ~tptr /\ conf.recheck /\ hm = s
+    /\ Goto(s, "rs.leaving")
+    /\ UNCHANGED <<lm, hm, tptr, wptr, thr, wobj, queue, pending, app, hooked, hobj, stale, cur, todo, script, inPipe, ctr, rd,
+                   delivered, accepted, ghost>>
+
+\* RsLock + RsNoThread's decision / MvLock + MvSkip's decision, as the points rs.locked / mv.locked show them
+TRsLocked(s) ==
+    /\ pc[s] = "rs.enter" /\ HAvail(s)
+    /\ hm' = s
+    /\ Goto(s, IF tptr THEN "rs.locked" ELSE "rs.leaving")
+    /\ UNCHANGED <<conf, lm, tptr, wptr, thr, wobj, queue, pending, app, hooked, hobj, stale, cur, todo, script, inPipe, ctr, rd,
+                   delivered, accepted, ghost>>
+
+TMvLocked(s) ==
+    /\ pc[s] = "idle" /\ Op(s) = "move" /\ HAvail(s)
+    /\ conf.safeEnv => app = "alive"
+    /\ hm' = s
+    /\ Goto(s, IF tptr THEN "mv.leaving" ELSE "mv.locked")
+    /\ ghost' = [ghost EXCEPT !.crashed = @ \/ hobj = "destroyed"]
+    /\ UNCHANGED <<conf, lm, tptr, wptr, thr, wobj, queue, pending, app, hooked, hobj, stale, cur, todo, script, inPipe, ctr, rd,
+                   delivered, accepted>>
+
 TOpEnd(s) ==
-    /\ \/ pc[s] \in {"rs.cleared", "mv.started"}
+    /\ \/ pc[s] \in {"rs.cleared", "mv.started", "rs.leaving", "mv.leaving"}
        \/ pc[s] = "rs.locked" /\ ~tptr
        \/ pc[s] = "mv.locked" /\ tptr
        \/ pc[s] = "rs.check" /\ pending = 0 /\ ~tptr /\ conf.recheck
@@ -148,13 +175,13 @@ TPt ==
              [] p = "wk.processed"   -> At(W, "wk.processed") /\ t = W
              [] p = "wk.end"         -> t = W /\ WBack /\ UNCHANGED conf
              [] p = "rs.enter"       -> RsEnter(t) /\ UNCHANGED conf
-             [] p = "rs.locked"      -> RsLock(t) /\ UNCHANGED conf /\ (ev.a = 1) = tptr
+             [] p = "rs.locked"      -> TRsLocked(t) /\ (ev.a = 1) = tptr
              [] p = "rs.wait.unlock" -> TWaitUnlock(t)
              [] p = "rs.wait.relock" -> RsRelock(t) /\ UNCHANGED conf
              [] p = "rs.quit"        -> TToQuit(t)
              [] p = "rs.joined"      -> TJoined(t)
              [] p = "rs.cleared"     -> RsClear(t) /\ UNCHANGED conf
-             [] p = "mv.locked"      -> MvLock(t) /\ UNCHANGED conf /\ (ev.a = 1) = tptr
+             [] p = "mv.locked"      -> TMvLocked(t) /\ (ev.a = 1) = tptr
              [] p = "mv.started"     -> MvCreate(t) /\ UNCHANGED conf
              [] p \in {"lg.install", "lg.restore", "lg.dtor"} -> Same          \* handler installation: QtlInstall
              [] OTHER                -> FALSE
@@ -212,7 +239,7 @@ TFinished ==
 TGate == IsEvent("GateOpen") /\ KeepTg /\ Same
 
 \* the one step no event is logged for: the worker's lock-free decrement of the pending counter
-TInternal == UNCHANGED <<l, tg, conf>> /\ (WDec \/ \E s \in Stoppers : TSeeBusy(s))
+TInternal == UNCHANGED <<l, tg, conf>> /\ (WDec \/ \E s \in Stoppers : TSeeBusy(s) \/ TLeaveAfterWait(s))
 
 TNext == TReset \/ TCallBegin \/ TCallEnd \/ TPt \/ TEnter \/ TDeliver \/ TExit \/ TFlush \/ TOp \/ TApp \/ TFinished \/ TGate
          \/ TInternal
